@@ -447,6 +447,8 @@ def gen_sel_ops(rng, n, kmax=3, allow_bad=False):
     ops = []
     for _ in range(rng.randint(1, kmax)):
         ix = gen_index(rng, n, allow_bad)
+        while not allow_bad and ragged.py_len(ix, n) is None:
+            ix = gen_index(rng, n, allow_bad)
         ops.append({'op': 'sel', 'ix': ix})
         k = ragged.py_len(ix, n)
         if k is None:
@@ -483,3 +485,75 @@ def col_sub(ft, a, b):
     if ft['kind'] == 'met':
         out['widths'] = ft['widths'][a:b]
     return out
+
+
+# ------------------------------------------------------------------ datasets (C08 lookup on materialized frames, C10)
+def stub_embedder(texts):
+    """deterministic stand-in for a text embedding model: 3 numbers per string"""
+    return torch.tensor([[float(len(t)), float(sum(map(ord, t)) % 7), 1.0] for t in texts],
+                        dtype=torch.float32).reshape(len(texts), 3)
+
+
+def gen_dataset(rng, n=None):
+    """a small table spec: a row-id column plus a random subset of column kinds; JSON-able (None = missing)"""
+    n = rng.choice([1, 2, 3, 4, 5, 6, 7]) if n is None else n
+    cols = [{'name': 'row_id', 'stype': 'numerical', 'vals': [float(i) for i in range(n)]}]
+    kinds = rng.sample(['numerical', 'categorical', 'text_embedded', 'text_embedded', 'multicategorical', 'embedding'],
+                       rng.randint(1, 5))
+    for k, s in enumerate(kinds):
+        name = f'c{k}_{s}'
+        if s == 'numerical':
+            vals = [None if rng.random() < .15 else rng.randint(-6, 12) * 0.5 for _ in range(n)]
+        elif s == 'categorical':
+            vals = [None if rng.random() < .15 else rng.choice('abcd') for _ in range(n)]
+            if all(v is None for v in vals):
+                vals[0] = 'a'
+        elif s == 'text_embedded':
+            vals = [''.join(rng.choice('xyz ') for _ in range(rng.randint(0, 5))) for _ in range(n)]
+        elif s == 'multicategorical':
+            vals = [None if rng.random() < .1 else [rng.choice('pqr') for _ in range(rng.randint(0, 3))] for _ in range(n)]
+            if all(not v for v in vals):
+                vals[0] = ['p']
+        else:
+            vals = [[rng.randint(0, 9) * 0.5, rng.randint(0, 9) * 0.5] for _ in range(n)]
+        cols.append({'name': name, 'stype': s, 'vals': vals})
+    rng.shuffle(cols)
+    target = None
+    if rng.random() < .6:
+        target = 'target'
+        cols.append({'name': 'target', 'stype': rng.choice(['numerical', 'categorical']),
+                     'vals': [rng.randint(0, 2) for _ in range(n)]})
+    return {'n': n, 'cols': cols, 'target': target}
+
+
+def build_dataset(dspec):
+    """an unmaterialized torch_frame Dataset of a table spec"""
+    import pandas as pd
+    from torch_frame.config.text_embedder import TextEmbedderConfig
+    from torch_frame.data import Dataset
+    data = {}
+    for c in dspec['cols']:
+        if c['stype'] == 'numerical':
+            data[c['name']] = pd.Series([np.nan if v is None else float(v) for v in c['vals']], dtype=float)
+        elif c['name'] == 'target':
+            data[c['name']] = pd.Series(list(c['vals']))
+        else:
+            data[c['name']] = pd.Series(list(c['vals']), dtype=object).astype(object)
+    df = pd.DataFrame(data)
+    col_to_stype = {c['name']: stype(c['stype']) for c in dspec['cols']}
+    kw = {}
+    if any(c['stype'] == 'text_embedded' for c in dspec['cols']):
+        kw['col_to_text_embedder_cfg'] = TextEmbedderConfig(stub_embedder, batch_size=None)
+    return Dataset(df, col_to_stype, target_col=dspec['target'], **kw)
+
+
+def dataset_expected_cells(dspec, name):
+    """what the column must contain, straight from the table (None where the encoding depends on fitted statistics)"""
+    c = next(c for c in dspec['cols'] if c['name'] == name)
+    if c['stype'] == 'numerical':
+        return [[[bits(float('nan') if v is None else v)]] for v in c['vals']]
+    if c['stype'] == 'text_embedded':
+        return [[[bits(x) for x in row]] for row in stub_embedder(list(c['vals'])).tolist()]
+    if c['stype'] == 'embedding':
+        return [[[bits(x) for x in v]] for v in c['vals']]
+    return None
